@@ -414,8 +414,12 @@ func LostAfterNonNil(fl *Flow, p *Path, use ResultUse) string {
 		switch e.Kind {
 		case EvAssign:
 			if use.Var != nil && e.Tok != token.DEFINE {
-				for _, l := range e.Lhs {
+				for k, l := range e.Lhs {
 					if id, ok := ast.Unparen(l).(*ast.Ident); ok && fl.Info.ObjectOf(id) == use.Var {
+						// err = fmt.Errorf("…: %w", err): the variable is wrapped, not replaced
+						if len(e.Rhs) == len(e.Lhs) && mentionsObj(fl.Info, e.Rhs[k], use.Var) {
+							continue
+						}
 						return "after the failing branch the error variable is assigned again before the function returns (the loop goes on): the failure is overwritten by a later result"
 					}
 				}
